@@ -167,7 +167,8 @@ func (r *FetchRequest) decode(pd packetDecoder, version int16) (err error) {
 	if err != nil {
 		return err
 	}
-	if topicCount == 0 {
+	if topicCount == 0 && r.Version < 7 {
+		// from version 7 on the forgotten topics (and the rack id) follow the topic array
 		return nil
 	}
 	r.blocks = make(map[string]map[int32]*fetchRequestBlock)
